@@ -15,10 +15,15 @@ def run(tier, seed, update_lock=False):
     u2 = Unit('mfpt-system[sink set]', TC.registry_mfpts(), keys=[TC.F + 'mfpts'],
               mutants=[('lag-dropped', CF, "        mfpts = lagtime * np.linalg.solve(I_m_Q, c)", "        mfpts = np.linalg.solve(I_m_Q, c)"),
                        ('sinks-not-zero', CF, "        c[sinks] = 0\n", "        pass\n")])
-    for x in (u, u2):
+    u3 = Unit('mfpt-table[all pairs]', TC.registry_mfpts_all(), keys=[TC.F + 'mfpts'],
+              mutants=[('sign-of-the-fundamental-matrix-term', CF, "        mfpts = lagtime * (np.diag(Z) - Z) / W", "        mfpts = lagtime * (Z - np.diag(Z)) / W"),
+                       ('populations-down-the-columns', CF, "        W = np.array([populations] * n_states)\n", "        W = np.array([populations] * n_states).T\n"),
+                       ('identity-dropped', CF, "        Z = np.linalg.inv(np.eye(n_states) - tprob + W)", "        Z = np.linalg.inv(W - tprob)")])
+    for x in (u, u2, u3):
         R.prove(x)
-    for x in (u, u2):
+    for x in (u, u2, u3):
         R.canary_check(x)
+    R.lemma('MfptAll.lean', 'Z right inverse of I - T + W, T row-stochastic, pi stationary with total 1  =>  m[i,j] = (Z[j,j]-Z[i,j])/pi_j is 0 on the diagonal and m[i,j] = 1 + sum_k T[i,k] m[k,j] for i != j (Kemeny-Snell)')
     R.lemma('Committor.lean', 'point-wise system construction (_I_m_Q, R) + exact solve + injective sink list => q=0 on sources, 1 on sinks, q_i = sum_j T_ij q_j elsewhere')
     R.lemma('Mfpt.lean', 'sink-set MFPT system => t=0 on sinks, t_i = lag + sum_j T_ij t_j elsewhere')
     R.bounded('tpt.py', 'run-time contracts (the statement) on the real committors / mfpts', 'irreducible stochastic matrices 3..5 states (reversible, non-reversible, high barrier), all disjoint source/sink sets of sizes 1-2, ndarray/csr/lil, lags 1 and 3.5, np.matrix input', args=['--only=C07'])
@@ -27,7 +32,7 @@ def run(tier, seed, update_lock=False):
     R.clauses = [{'clause': 'first-step equations follow from the point-wise linear system the code builds', 'status': 'lemma (Lean 4 + Mathlib) over the contract clauses of _I_m_Q / committors / mfpts'},
                  {'clause': 'committors: the code builds exactly that system (I - T with absorbing rows and columns zeroed and unit diagonal there; right-hand side 1 on sinks, 0 on sources, T[i, sink] elsewhere; B solves it; q = row sums of B with sinks pinned to 1)', 'status': 'proved (SMT on the real _I_m_Q and committors; fancy-index stores modelled by list membership)'},
                  {'clause': 'mfpts to a sink set: system matrix, right-hand side 0 on sinks / 1 elsewhere, result = lag time x an exact solution (hence linear in the lag time)', 'status': 'proved (SMT on the real mfpts, sink-set branch)'},
-                 {'clause': 'all-pairs table (fundamental-matrix formula)', 'status': 'bounded'},
+                 {'clause': 'all-pairs table: W has the populations in every row, Z = inverse of I - T + W (inverse assumed exact), table[i,j] = lag (Z[j,j] - Z[i,j]) / pi_j, zero on the diagonal; the first-step equations follow (Kemeny-Snell)', 'status': 'proved (SMT on the real mfpts, all-pairs branch with given populations) + lemma (Lean 4 + Mathlib)'},
                  {'clause': 'committors in [0,1]; all-pairs table = single-sink computation; linear in lag; dense = sparse; inputs unchanged', 'status': 'bounded'}]
-    R.assumptions += ['scipy spsolve / numpy solve / inv are exact up to 1e-8', 'maximum principle and Kemeny-Snell identity are not proved']
+    R.assumptions += ['scipy spsolve / numpy solve / inv are exact up to 1e-8', 'maximum principle not proved; the stationary vector handed to the all-pairs branch comes from the eigensolver (assumed)']
     return R.finish('Lean lemmas over the system-construction clauses + bounded run-time contracts of the statement on the real functions.', update_lock=update_lock)
